@@ -12,10 +12,11 @@ NewGrant(c) == CopiesIn(GrantMsg, network'[c]) > CopiesIn(GrantMsg, network[c])
 Granted == {c \in ClientSet : NewGrant(c)}
 
 HInit == Init /\ arrivals = <<>> /\ served = <<>>
-HNext == /\ Next
-         /\ arrivals' = IF \E s \in ServerSet : pc[s] = "serverReceive" /\ pc'[s] = "serverRespond" /\ msg'[s].type = LockMsg
+(* how the history variables follow a step (a function of vars and vars' only) *)
+HStep == /\ arrivals' = IF \E s \in ServerSet : pc[s] = "serverReceive" /\ pc'[s] = "serverRespond" /\ msg'[s].type = LockMsg
                         THEN Append(arrivals, msg'[ServerID].from) ELSE arrivals
          /\ served' = IF Granted = {} THEN served ELSE Append(served, CHOOSE c \in Granted : TRUE)
+HNext == Next /\ HStep
 HSpec == HInit /\ [][HNext]_hvars
 
 (* no two clients hold the lock at the same time (as written in locksvc.tla) *)
